@@ -110,3 +110,85 @@ func VC01Field1Deep() { vFieldsCase(nil, [][]int{vFullMenu}, false, 1) }
 func VC01Ctx2Field1() { vFieldsCase([][]int{vLiteMenu, vLiteMenu}, [][]int{vFullMenu}, false, 0) }
 
 var _ = time.Second
+
+type vPayload01 struct {
+	A int64  `json:"a"`
+	B string `json:"b"`
+}
+
+// A long-lived encoder (the core's, after With) and the per-entry encoders cloned from it must not share
+// scratch state: entries in a row through one core, with reflected values in the context and at the call
+// site, whatever the buffer pool hands back.
+//
+//verif: prop=C01,C08 bounds="JSON ioCore (with or without a caller encoder) whose With-context holds 0..1 reflected values and a number; 3 entries in a row, each with a symbolic int64 and (the first two optionally, the last always) a reflected call-site field, the first 3 sync.Pool.Get calls of the last entry returning the newest pooled object, the oldest one or a new one: every line is one well-formed JSON object holding exactly its own context and fields"
+func VC01ReflectedRow() {
+	cfg := EncoderConfig{MessageKey: "m", LineEnding: "\n"}
+	withCaller := vrt.Choice("caller", 2) == 1
+	if withCaller {
+		cfg.CallerKey, cfg.EncodeCaller = "c", ShortCallerEncoder
+	}
+	sink := &vBytesSink{}
+	ctxReflected := vrt.Choice("ctx-reflected", 2) == 1
+	ctx := []Field{{Key: "n", Type: Int64Type, Integer: 7}}
+	if ctxReflected {
+		ctx = append(ctx, Field{Key: "cr", Type: ReflectType, Interface: vPayload01{1, "ctx"}})
+	}
+	core := NewCore(NewJSONEncoder(cfg), sink, DebugLevel).With(ctx)
+	for i := 0; i < 3; i++ {
+		x := vrt.Int64(vName("x", i))
+		fields := []Field{{Key: "x", Type: Int64Type, Integer: x}}
+		reflected := i == 2 || vrt.Choice(vName("reflected", i), 2) == 1
+		if reflected {
+			fields = append(fields, Field{Key: "r", Type: ReflectType, Interface: vPayload01{int64(i), "call"}})
+		}
+		ent := Entry{Level: InfoLevel, Message: "e", Time: time.Unix(1, 0)}
+		if withCaller {
+			ent.Caller = EntryCaller{Defined: true, File: "/a/b.go", Line: 3}
+		}
+		if i == 2 {
+			vrt.PoolNondetFirst(3, 3)
+		}
+		_ = core.Write(ent, fields)
+		vrt.PoolNondet(false)
+		if len(sink.writes) != i+1 {
+			vrt.Fail("exactly-one-sink-write-per-call")
+			return
+		}
+		v, perr := vrt.ParseJSONObjectLine(sink.writes[i], "\n", false)
+		if perr != "" {
+			vrt.Tag("parse=" + perr)
+			vrt.Fail("one-valid-json-object-then-line-ending")
+			return
+		}
+		want := []string{"m"}
+		if withCaller {
+			want = []string{"c", "m"}
+		}
+		want = append(want, "n")
+		if ctxReflected {
+			want = append(want, "cr")
+		}
+		want = append(want, "x")
+		if reflected {
+			want = append(want, "r")
+		}
+		ok := len(v.Obj) == len(want)
+		for j := 0; ok && j < len(want); j++ {
+			ok = string(v.Obj[j].Key) == want[j]
+		}
+		vrt.Assert("line-holds-exactly-its-own-members-in-order", ok)
+		if ok {
+			vrt.Assert("call-site-value-intact", vNumIsInt(v.Get("x").Num, x))
+			if reflected {
+				r := v.Get("r")
+				vrt.Assert("reflected-value-intact", r.Kind == vrt.JObj && len(r.Obj) == 2 && vNumIsInt(r.Get("a").Num, int64(i)) && string(r.Get("b").Str) == "call")
+			}
+			if ctxReflected {
+				r := v.Get("cr")
+				vrt.Assert("reflected-context-intact", r.Kind == vrt.JObj && len(r.Obj) == 2 && string(r.Get("b").Str) == "ctx")
+			}
+		}
+	}
+	vrt.Observe("lines", len(sink.writes))
+	vrt.Cover("done")
+}
